@@ -930,7 +930,9 @@ func SiteName(i int) string {
 // ---------------------------------------------------------------- norace copies across the task/simulator boundary
 
 // CloneBytes copies program-owned memory into a fresh buffer without the race
-// detector recording the read.
+// detector recording the read. The copy is a plain loop: the builtin copy()
+// goes through runtime.slicecopy, which reports to the detector on behalf of
+// its caller even when the caller is //go:norace.
 //
 //go:norace
 func CloneBytes(b []byte) []byte {
@@ -938,21 +940,34 @@ func CloneBytes(b []byte) []byte {
 		return nil
 	}
 	out := make([]byte, len(b))
-	copy(out, b)
+	for i := range b {
+		out[i] = b[i]
+	}
 	return out
 }
 
 //go:norace
 func CloneString(x string) string {
 	b := make([]byte, len(x))
-	copy(b, x)
+	for i := 0; i < len(x); i++ {
+		b[i] = x[i]
+	}
 	return string(b)
 }
 
 // CopyInto copies simulator-owned bytes into a program buffer (unrecorded).
 //
 //go:norace
-func CopyInto(dst, src []byte) int { return copy(dst, src) }
+func CopyInto(dst, src []byte) int {
+	n := len(src)
+	if len(dst) < n {
+		n = len(dst)
+	}
+	for i := 0; i < n; i++ {
+		dst[i] = src[i]
+	}
+	return n
+}
 
 // TaskLogf appends to the event log from a task.
 //
